@@ -31,6 +31,19 @@ CLAIMED["C05"] = dict(
     design="§4 C05",
 )
 
+CLAIMED["C17"] = dict(
+    text="Lean 4 theorems: C17_glob_partial (for every plain dep5 glob and every path python-debian's matcher and the "
+         "REUSE.toml matcher of the converted glob agree), C17_paragraph / C17_last_wins (any number of paragraphs: the "
+         "last matching one wins on both sides with the same payload), C17_order / C17_refuse / C17_final (dep5 removed only "
+         "after REUSE.toml exists; refusal without dep5). Tied to the code by an exhaustive dep5-glob x path differential "
+         "through both real matchers and by generated dep5 files linted before and after the real conversion.",
+    note="Partial: globs with an unescaped '?' or an asterisk run directly followed by '/' are excluded from the theorem "
+         "(dep5Plain) — both are genuine, recorded differences (known_findings.json). Trusted: Lean kernel, harness, CPython re "
+         "(mirrored by the verified matcher), python-debian's paragraph parser and tomlkit (exercised end to end, not modelled).",
+    technique="Lean 4 proof (regex language equality of dep5 glob and converted REUSE.toml glob) + exhaustive differential",
+    design="§4 C17",
+)
+
 NOT_YET = {}
 
 
